@@ -324,6 +324,15 @@ def tcp_wrap(ctx):
                                 tag='wrap-park%d-iss%04x%04x-hold%d' % (k, hi, lo, arg),
                                 a=dict(writes=[1480], shutdown=True, iss=[hi, lo]), b=dict(writes=[], shutdown=True),
                                 a2b=dict(rules=[dict(kind='data', nth=1, act='hold', arg=arg)]), b2a=dict()))
+    # deterministic: several writes of different sizes whose segments straddle the wrap point (the SENDER's SND.NXT crosses it
+    # inside a segment; the next write must continue at the right sequence number)
+    for hi in (0xffff, 0x7fff):
+        for below in (100, 255, 1, 2, 700):
+            k += 1
+            scs.append(dict(v=4 if k % 2 else 6, mtu=1500, sack=True, cc='', sync=False, deadline_ms=20000, seed=k, flags={},
+                            tag='wrap-writes%d-iss%04x%04x' % (k, hi, 0x10000 - below),
+                            a=dict(writes=[200, 300, 50, 700, 1, 1500], write_gap_us=15000, shutdown=True, iss=[hi, 0x10000 - below]),
+                            b=dict(writes=[300], shutdown=True), a2b=dict(), b2a=dict()))
     # deterministic: the RECEIVER's window edges straddle the wrap: a small receive buffer, the peer's ISS a few thousand below
     # 2^32 / 2^31, so that the advertised right edge is still below the wrap point when the next edge (after the application
     # read) lies beyond it; the window must keep re-opening and the transfer must complete (C02 clauses)
